@@ -6,7 +6,7 @@
    In Token.v / Names.v the Boolean parameter fx = true selects the code as it
    is now (after the fix commits e8e73fb and be0b187). *)
 From Coq Require Import List NArith ZArith Bool Arith.
-From GD Require Import C08.Token C08.TokSpec C08.TokLemmas C08.TokBounds C08.TokAgree
+From GD Require Import C08.Token C08.TokSpec C08.TokLemmas C08.TokBounds C08.TokAgree C08.TokWant
   C08.Standards Gen.Gates C08.GatesDefs C08.GatesProofs C08.Names C08.NamesProofs C08.LitSpec C08.Literal C08.LitProofs C08.Callback C08.LineSpec C08.ParseImpl C08.ParseProofs.
 Import ListNotations.
 Open Scope N_scope.
@@ -15,6 +15,20 @@ Open Scope N_scope.
    describes, for every byte string and both dialects (v6 = Version >= 6) ---- *)
 Theorem tokenise_agrees : forall (v6 : bool) (s : list N), tok_impl true v6 s = tok_spec v6 s.
 Proof. exact tok_impl_fixed_spec. Qed.
+
+(* ---- tok_want: a bounded call with room for every token of the line returns
+   exactly what the unbounded one does (tokens, error, *pos) ... ---- *)
+Theorem tokenise_with_enough_room : forall (fx v6 : bool) (want : nat) (s : list N),
+  (length (toks (tokenise fx v6 (S (length s)) s)) <= want)%nat ->
+  tokenise fx v6 want s = tokenise fx v6 (S (length s)) s.
+Proof. exact tokenise_want_enough. Qed.
+
+(* ... so every line the Standards accept with at most MAX_IN_COLS = 14 tokens
+   is tokenised, by the call the format-file parser and gd_add_spec make,
+   exactly as dirfile-format(5) says *)
+Theorem tok_line_conforming : forall (v6 : bool) (s : list N) (l : list (list N)),
+  tok_spec v6 s = TOk l -> (length l <= MAX_IN_COLS)%nat -> tok_line true v6 s = TOk l.
+Proof. exact tok_line_conforming_lemma. Qed.
 
 (* ---- C05: the tokeniser never writes past its buffers (any tok_want, any
    dialect): the tokens with their terminating NULs fit the strdup'ed line,
